@@ -68,15 +68,16 @@ REG = {
     },
     "C16": {
         "level": "exploration",
-        "technique": "property-based testing (rapid) of the missing-range computation against a reference interval complement, exhaustive enumeration of all receive patterns for sizes <= 12; the driven (socket-level) part is added with the attachment engine",
+        "technique": "property-based testing (rapid) of the missing-range computation against a reference interval complement, exhaustive enumeration of all receive patterns for sizes <= 12; plus upload scripts with held-back chunks driven through the real attachment connection loop (net.Pipe hook) whose 0x9212 replies are compared with the reference complement, then the listed ranges are resent and the next reply must say complete",
         "level_text": "Generated sets of pairwise disjoint received ranges (0..600 cut points, sizes up to 2^32-1, any insertion order) compared with an independent complement-of-intervals; every subset of unit cells for file sizes <= 12 enumerated exhaustively.",
         "level_note": "Pure part calls Package.StatisticalMissSegments directly on a Package built the way stageStreamData fills it (CurrentSize = sum of lengths).",
         "rule": "received ranges built from drawn cut points, each cell received or not by one of four modes, arrival order permuted; non-trivial = at least 2 gaps",
         "assumptions": ["reference complement harness/ref/intervals.go"],
-        "required_buckets": {"any": ["gaps_0", "gaps_2-3", "gap_at_start", "gap_at_end", "single_byte_gap", "size_near_2^32"]},
+        "required_buckets": {"any": ["gaps_0", "gaps_2-3", "gap_at_start", "gap_at_end", "single_byte_gap", "size_near_2^32", "gaps_at_1212", "gaps>=2", "resent_chunk"]},
         "parts": [
             rapid("pure", "TestC16", 5000, 150000),
             enum("pure", "TestC16Enum", 1, 1),
+            rapid("ext", "TestC16Driven", 400, 8000),
         ],
     },
     "C17": {
@@ -168,6 +169,44 @@ REG = {
         "parts": [
             rapid("ext", "TestC14", 1500, 30000),
             enum("ext", "TestC14Enum", 4, 16),
+        ],
+    },
+    "C15": {
+        "level": "exploration",
+        "technique": "model-based property testing (rapid): generated upload scripts (files, chunkings, orders, resends, dialects, write partitions) played against the real attachment connection loop over net.Pipe (one Write = one Read) and judged by a reference upload model in lockstep with the observed events and replies",
+        "level_text": "Each script announces 1..4 files (names/IDs over arbitrary bytes incl. the 01cd marker and 7E/7D, sizes 1 B..3 chunk sizes, chunk sizes 1 B..64 KiB, five dialects incl. HLJ's length-prefixed chunk header), sends chunks shuffled within/across files with resends and optional held-back chunks, and cuts the byte stream per item, all coalesced, control-frame-plus-next, or at random incl. inside chunk headers. Event k must correspond to item k; a file may be reported complete only when every byte has arrived and then byte-identical, must be reported once everything has arrived, and each control frame gets exactly one prescribed reply with consecutive platform serials.",
+        "level_note": "Uses attachment.VerifServeConn (hook, tag verif): same connection object and run loop as GoJT808.Run builds; net.Pipe gives exact control of read boundaries. Names are non-empty, NUL-free at the edges, <= 50 bytes and distinct; the client waits (bounded) for the replies before hanging up, as a terminal does.",
+        "rule": "rapid scripts; non-trivial = (>= 2 files or >= 3 chunks) and (chunks out of ascending order or a coalescing/random write partition)",
+        "assumptions": ["reference builders harness/ref/upload.go"],
+        "required_buckets": {"any": ["dialect1", "dialect2", "dialect3", "dialect4", "dialect5", "marker_in_metadata", "resent_chunk", "chunks_out_of_order", "files>=2", "cuts_control_plus_next", "cuts_coalesce_all", "cuts_random", "cuts_per_item"]},
+        "parts": [
+            rapid("ext", "TestC15", 400, 8000),
+        ],
+    },
+    "C19": {
+        "level": "exploration",
+        "technique": "property-based testing (rapid) with a path-fragment grammar: uploads with hostile announced names run against the default file handler inside a throw-away sandbox directory; oracle = walk of the sandbox (every new/modified path must lie under work/<phone>/, decoys unchanged)",
+        "level_text": "Announced names are built from path fragments (.., ., /, leading /, repeated separators, backslashes, long names, names of decoy files planted outside the directory) and uploaded completely, partly or not at all through the real connection loop with the server's default FileEventer; afterwards the whole sandbox tree is compared with the allowed sub-tree.",
+        "level_note": "The test process chdirs into the sandbox (one process per shard). file.log in the working directory is the handler's own log and is allowed. Rejecting or sanitising a name both pass.",
+        "rule": "rapid names from a fragment grammar; non-trivial = the name contains a separator or a '..' component",
+        "assumptions": [],
+        "required_buckets": {"any": ["name_with_separator_or_dotdot", "files_stored"]},
+        "parts": [
+            rapid("ext", "TestC19", 150, 4000),
+        ],
+    },
+    "C10": {
+        "level": "exploration",
+        "technique": "property-based testing / fuzzing of hostile streams and lifecycles: (A) attachment connection loop over net.Pipe with default and custom file handler, (B) JT808 extractor + every handler call a connection goroutine makes, both in-process so a panic is caught, shrunk and replayed; (C) live servers with an attacker and a witness connection in a child process (scenario engine); native fuzzing of (B) in the thorough tier",
+        "level_text": "Attack streams: random bytes, mutated valid conversations, valid frames with adversarial header/body fields for every supported ID (counts > items, length bytes 0/0xFF, package number 0 / > total, total 0xFFFF), attachment control frames and chunk headers with adversarial names/offsets/lengths, chunks for unannounced files, data before any 0x1210; lifecycle faults: connect-and-close, close mid-frame / mid-chunk. Oracle: no panic in code that runs on a connection goroutine (there is no recover in either server), the loop ends after the client leaves, and a fresh well-behaved client is then served correctly.",
+        "level_note": "In-process parts treat a panic inside the connection loop as a process crash because service.go / attachment/service.go start connections with `go` and no recover. What happens to the attacker's own connection is free.",
+        "rule": "rapid attack streams from 8 attack classes x write partitions; non-trivial = the stream got past framing (at least one frame/event accepted) or a lifecycle fault at a non-trivial point",
+        "assumptions": [],
+        "required_buckets": {"any": ["connect_and_close", "closed_mid_stream", "hostile_chunk_header", "hostile_control_frame", "default_file_handler", "custom_file_handler", "hostile_package_numbers", "frames_accepted", "connection_closed_on_error", "unsupported_id"]},
+        "parts": [
+            rapid("ext", "TestC10Attach", 300, 6000),
+            rapid("ext", "TestC10Extractor", 1500, 40000),
+            fuzz("ext", "FuzzC10Extractor", 120),
         ],
     },
 }
